@@ -9,7 +9,8 @@ import json, glob, sys
 P=sys.argv[1]; out=[]
 for f in sorted(glob.glob('/verif/seeded/*/meta.json')):
     d=json.load(open(f)); name=f.split('/')[-2]
-    if d.get('property')==P or name.startswith(P.lower()+'-'):
+    KW={'C01':['-map-','multimap'],'C02':['hashmap','hashset','poolmap'],'C03':['-list-','array','poollist'],'C04':['swap','clear','append','assign','remove','destructor'],'C05':['swap','remove','hashmap','poolmap','multimap','poollist'],'C06':['string'],'C07':['variant'],'C08':['buffer'],'C09':['ptr','string-detach','variant','xmlvariant','string-trim'],'C13':['buffer-resize','write','resume','drain','onwrite','poll-set'],'C14':['poll','timer','accept','run-skips','deleteclient']}
+    if d.get('property')==P or name.startswith(P.lower()+'-') or any(k in name for k in KW.get(P,[])):
         out.append(name.split('-',1)[1].replace('-',' '))
 print('; '.join(out) + ' (choose a function or mechanism none of these touches)')
 PY
